@@ -1,9 +1,219 @@
 package checks
 
-import "verif/internal/core"
+import (
+	"encoding/hex"
+	"encoding/json"
+	"fmt"
+	"path/filepath"
+	"strings"
 
-// c07CrashHalf is filled in by the E3 engine (ktrace); until then it only records that it did not run.
-var c07CrashHalf = func(ctx *core.Ctx) error {
-	ctx.Ev.Notes = append(ctx.Ev.Notes, "crash half not run in this build")
+	"verif/internal/core"
+	"verif/internal/ktrace"
+	"verif/internal/sess"
+)
+
+// Crash half of C07: every system-call boundary of the appending process; replay of each image must succeed
+// and deliver a prefix of the appended sequence containing every record whose synchronous append had returned;
+// each synchronous append must have written and fsynced its record before returning (trace predicate).
+
+type c07Crash struct {
+	Sess sess.Session `json:"sess"`
+}
+
+func walCrashAlphabet() []sess.Op {
+	var ops []sess.Op
+	for _, v := range []string{"a", "I10", "I100"} {
+		ops = append(ops, sess.Op{Op: "append", V: v}, sess.Op{Op: "appendsync", V: v})
+	}
+	return append(ops, sess.Op{Op: "walrotate"})
+}
+
+func c07CrashHalf(ctx *core.Ctx) error {
+	maxLen := 2
+	if ctx.Tier == "thorough" {
+		maxLen = 3
+	}
+	var cases []json.RawMessage
+	for _, p := range progs(walCrashAlphabet(), maxLen) {
+		for _, max := range []uint64{24, 64, 0} {
+			ops := append(append([]sess.Op{}, p...), sess.Op{Op: "walclose"})
+			cases = append(cases, core.J(c07Case{Crash: &c07Crash{Sess: sess.Session{Kind: "wal", Ops: ops, WalMax: max, WalBuf: 16}}}))
+		}
+	}
+	ctx.Ev.Bounds["crash_half_sessions"] = len(cases)
+	ctx.Ev.Bounds["crash_half_max_program_length"] = maxLen
+	ctx.Ev.Notes = append(ctx.Ev.Notes, "crash half: every program of Append/AppendSync/Rotate up to the bound over records of 1, 10 and 100 bytes x size limits {24, 64, default} with a 16-byte write buffer runs in a traced child; at every boundary between two mutating system calls the directory image is replayed by a fresh process; for every synchronous append the trace must show write(s) to the current log file followed by an fsync of it, with no later write, before the call returns")
+	rs := ctx.Pmap(cases)
+	ctx.Fold(rs, cases)
+	for i, r := range rs {
+		if r.Died {
+			ctx.Report(core.Violation{Desc: "worker died: " + r.DiedMsg, Case: cases[i]})
+		}
+	}
 	return nil
+}
+
+func walDumpEncode(rec []byte) string {
+	if len(rec) > 32 {
+		return fmt.Sprintf("#%d:%s", len(rec), hashHex(rec))
+	}
+	return hex.EncodeToString(rec)
+}
+
+func (c c07) crashCase(w *core.WCtx, cc *c07Crash) core.Result {
+	var r core.Result
+	r.Extra = map[string]int64{}
+	dir := w.Dir()
+	wdir := filepath.Join(dir, "wal")
+	mustMkdir(wdir)
+	sp := writeSession(dir, cc.Sess)
+	tr := ktrace.Run(ktrace.Options{Dir: wdir, Argv: []string{binPath("vchild"), "run", wdir, sp}})
+	name := fmt.Sprintf("wal session [%s] max=%d", sessStr(cc.Sess), cc.Sess.WalMax)
+	viol := func(f string, a ...any) {
+		if len(r.Viol) < 6 {
+			r.Viol = append(r.Viol, core.Violation{Desc: name + ": " + fmt.Sprintf(f, a...), Case: core.J(c07Case{Crash: cc})})
+		}
+	}
+	if tr.Err != nil || tr.ExitCode != 0 {
+		viol("session failed: %v exit %d", tr.Err, tr.ExitCode)
+		return r
+	}
+	r.Trans = int64(len(tr.Events))
+	// trace predicate for synchronous appends
+	for i, op := range cc.Sess.Ops {
+		if op.Op != "appendsync" {
+			continue
+		}
+		r.Evals++
+		in := false
+		var wrote, synced map[string]bool
+		ok := false
+		for _, e := range tr.Events {
+			switch {
+			case e.Kind == "marker" && e.Marker == fmt.Sprintf("B %d", i):
+				in, wrote, synced = true, map[string]bool{}, map[string]bool{}
+			case e.Kind == "marker" && e.Marker == fmt.Sprintf("A %d", i):
+				in = false
+				for p := range wrote {
+					if synced[p] {
+						ok = true
+					}
+				}
+				// the file that received the record's last write must be synced after it
+				for p := range wrote {
+					if !synced[p] && p == lastWritten(tr, i) {
+						ok = false
+					}
+				}
+			case in && e.Kind == "call" && e.Nr == "write":
+				wrote[e.Path] = true
+				synced[e.Path] = false
+			case in && e.Kind == "sync":
+				synced[e.Path] = true
+			}
+		}
+		if !ok {
+			viol("synchronous append (op %d) returned without a write to the log file followed by an fsync of it", i)
+		}
+	}
+	// crash images
+	sits := situations(tr)
+	byImg := map[int][]crashSituation{}
+	for _, s := range sits {
+		byImg[s.Image] = append(byImg[s.Image], s)
+	}
+	rdir := filepath.Join(dir, "rec")
+	for img := range tr.Images {
+		ss := byImg[img]
+		if len(ss) == 0 {
+			continue
+		}
+		removeAll(rdir)
+		if err := tr.Materialize(tr.Images[img], rdir); err != nil {
+			viol("harness: %v", err)
+			continue
+		}
+		mustMkdir(rdir)
+		d, exit, stderr, err := runChildDump(binPath("vchild"), "walreplay", rdir)
+		r.Traces++
+		for _, s := range ss {
+			r.Evals++
+			if len(s.Acked) > 0 {
+				r.Keys = append(r.Keys, core.HashKey(name, tr.Images[img].Hash, fmt.Sprint(s.Acked, s.Inflight)))
+			}
+			if err != nil || exit != 0 {
+				viol("image %d (%s): replay process failed: %v exit %d %s", img, s.Desc, err, exit, stderr)
+				break
+			}
+			if d.OpenErr != "" {
+				viol("image %d (%s; acked %v): replay failed: %s", img, s.Desc, s.Acked, d.OpenErr)
+				break
+			}
+			// begun appends in order
+			var begun []int
+			for i, op := range cc.Sess.Ops {
+				if op.Op == "append" || op.Op == "appendsync" {
+					for _, x := range append(append([]int{}, s.Acked...), s.Inflight...) {
+						if x == i {
+							begun = append(begun, i)
+						}
+					}
+				}
+			}
+			minLen := 0
+			for pos, i := range begun {
+				acked := false
+				for _, x := range s.Acked {
+					acked = acked || x == i
+				}
+				if acked && cc.Sess.Ops[i].Op == "appendsync" {
+					minLen = pos + 1
+				}
+			}
+			okPrefix := len(d.Records) <= len(begun) && len(d.Records) >= minLen
+			if okPrefix {
+				for k, rec := range d.Records {
+					if rec != walDumpEncode(sess.Value(cc.Sess.Ops[begun[k]].V)) {
+						okPrefix = false
+					}
+				}
+			}
+			if !okPrefix {
+				viol("image %d (%s; acked %v in flight %v): replay delivered %d records %v; must be a prefix of the %d begun appends containing at least the first %d (acknowledged synchronous appends)", img, s.Desc, s.Acked, s.Inflight, len(d.Records), shorten(d.Records), len(begun), minLen)
+			}
+		}
+	}
+	r.Outcome = fmt.Sprintf("crash ok=%v", len(r.Viol) == 0)
+	if len(cc.Sess.Ops) == 3 && cc.Sess.Ops[0].Op == "appendsync" && cc.Sess.Ops[1].Op == "append" && cc.Sess.WalMax == 24 && cc.Sess.Ops[0].V == "I10" {
+		r.Sample = string(core.J(map[string]any{"kind": "wal crash session", "session": sessStr(cc.Sess), "max_file_size": 24, "images": len(tr.Images)}))
+	}
+	return r
+}
+
+func shorten(s []string) []string {
+	var out []string
+	for _, x := range s {
+		if len(x) > 12 {
+			x = x[:12] + ".."
+		}
+		out = append(out, x)
+	}
+	return out
+}
+
+// lastWritten returns the path that received the last write between the markers of op i.
+func lastWritten(tr *ktrace.Trace, i int) string {
+	in := false
+	last := ""
+	for _, e := range tr.Events {
+		switch {
+		case e.Kind == "marker" && e.Marker == fmt.Sprintf("B %d", i):
+			in = true
+		case e.Kind == "marker" && e.Marker == fmt.Sprintf("A %d", i):
+			in = false
+		case in && e.Kind == "call" && e.Nr == "write" && strings.HasSuffix(e.Path, ".wal"):
+			last = e.Path
+		}
+	}
+	return last
 }
